@@ -108,6 +108,39 @@ def many_nterms_grammar():
     return gram.Grammar('many_nterms', nts, ['a', 'b', 'y', 'z'], 'S', rules)
 
 
+def many_states_grammar(with_error=False):
+    """more than 256 LR(1) states (a finite language of 48 ten-letter words over two letters: the automaton is the words' trie);
+    with_error: a recovery rule whose error symbol is shifted deep in the trie, into a state numbered beyond 255"""
+    rng = random.Random(7)
+    words = set()
+    while len(words) < 48:
+        words.add(''.join(rng.choice('ab') for _ in range(10)))
+    words = sorted(words)
+    rules = [('S', list(w), 0) for w in words]
+    ts = ['a', 'b']
+    if with_error:
+        ts = ['a', 'b', ';']
+        rules = [('S', list(w) + [';'], 0) for w in words] + [('S', list(words[-1][:9]) + ['error', ';'], 0), ('S', list(words[0][:8]) + ['error', ';'], 0)]
+    g = gram.Grammar('many_states_err' if with_error else 'many_states', ['S'], ts, 'S', rules)
+    g.words = words
+    return g
+
+
+def many_states_inputs(g):
+    semi = [ord(';')] if ';' in g.ts else []
+    ins = [list(w.encode()) + semi for w in g.words]
+    for w in g.words[::3] + g.words[-2:]:
+        for k in (0, 4, 9):
+            m = list(w.encode()); m[k] = 97 if m[k] == 98 else 98
+            ins.append(m + semi)
+        ins.append(list(w[:6].encode()) + semi)
+        ins.append(list((w + 'a').encode()) + semi)
+        if semi:
+            ins.append(list(w[:9].encode()) + [97, 98, 98] + semi)      # several terms to discard before the synchronising one
+            ins.append(list(w[:9].encode()))                             # the input ends while discarding
+    return ins
+
+
 def many_terms_inputs(g):
     t = [ord(c) for c in g.ts]
     pool = [t[0], t[1], t[2], t[62], t[63], t[64], t[65], t[30]]
@@ -121,6 +154,7 @@ def c01_corpus(tier, seed):
         entries += entries_for(g)
     entries.append(pipeline.gen_entry(many_terms_grammar()))
     entries.append(pipeline.gen_entry(many_nterms_grammar()))
+    entries.append(pipeline.gen_entry(many_states_grammar()))
     # small-scope enumeration (seed independent) through the host TUs
     if tier == 'quick':
         fams = [gengram.small_grammars(stride=17, limit=160, max_rules=3, max_rhs=2),
@@ -159,6 +193,9 @@ def check_C01(tier, seed):
         cap = 700 if tier == 'quick' else 3000
         if e.g.name == 'many_terms':
             pipeline.add_jobs(e, many_terms_inputs(e.g))
+            continue
+        if e.g.name == 'many_states':
+            pipeline.add_jobs(e, many_states_inputs(e.g))
             continue
         pipeline.add_jobs(e, all_inputs(e.g, L if len(e.g.ts) <= 3 else L - 1, cap))
         for s in gengram.sentences(e.g, rng, 4 if tier == 'quick' else 20, max_len=30 if tier == 'quick' else 120):
@@ -277,6 +314,28 @@ def classify_reject(rj):
     return k
 
 
+def classify_reject_all(rj):
+    """every class the disagreement belongs to: a message printed where a functor call was due is a functor problem AND a
+    report problem; each property judges the classes its statement is about"""
+    out = {classify_reject(rj)}
+    why = rj['why']
+    if why[0] == 'event':
+        import traces as tl
+        t = rj.get('trace') or {}
+        exp = why[2]
+        evs = tl.convert(t, 1)['events'] if t else []
+        act = evs[why[1] - 1] if 0 < why[1] <= len(evs) else None
+        kinds = {exp[0]} | ({act[0]} if act else set())
+        if kinds & {'synerr', 'unexp'}:
+            out.add('report')
+        if kinds & {'tval', 'call', 'dcall', 'ccall', 'ilist'}:
+            out.add('functor')
+        texts = {e[3] for e in (exp, act) if e and e[0] == 'msg'}
+        if kinds & {'recto', 'consume'} or texts & set(RECOVERY_TEXT):
+            out.add('recovery')
+    return out
+
+
 def trace_violation(e, rj, cls):
     t = rj['trace']
     import traces as tl
@@ -284,9 +343,10 @@ def trace_violation(e, rj, cls):
     pos = rj.get('pos', rj['why'][1] if len(rj['why']) > 1 and isinstance(rj['why'][1], int) else 0)
     return {
         'summary': {'grammar': e.gid, 'rules': ['%s -> %s%s' % (l, ' '.join(r) or 'eps', ' [%d]' % p if p else '') for (l, r, p) in e.g.rules],
-                    'input': bytes(t['bytes']).decode('latin-1'), 'options': {'verbose': t['verbose'], 'ws': t['ws'], 'nl': t['nl'], 'stream': t['stream']},
+                    'input': (bytes(t['bytes']).decode('latin-1') if len(t['bytes']) <= 200 else bytes(t['bytes'][:80]).decode('latin-1') + '... (%d bytes, complete in the replay file)' % len(t['bytes'])),
+                    'options': {'verbose': t['verbose'], 'ws': t['ws'], 'nl': t['nl'], 'stream': t['stream']},
                     'class': cls, 'spec_expected': rj['why'], 'real_event': evs[pos - 1] if 0 < pos <= len(evs) else None, 'real_ok': t['ok']},
-        'kind': 'parser', 'gname': e.g.name, 'mode': e.mode, 'gid': e.gid, 'dflt': list(getattr(e, 'dflt', ())), 'lexterms': getattr(e, 'lexterms', None), 'lexshape': getattr(e, 'lexshape', 'list'), 'clex': getattr(e, 'clex', False), 'ctxr': list(getattr(e, 'ctx', ())), 'postprec': list(getattr(e, 'postprec', ())), 'defines': list(getattr(e, 'defines', ())), 'noval': list(getattr(e, 'noval', ())), 'nvterms': list(getattr(e, 'nvterms', ())), 'tkinds': {str(k): v for k, v in getattr(e, 'tkinds', {}).items()}, 'ctx': t.get('ctx', 0),
+        'kind': 'parser', 'gname': e.g.name, 'mode': e.mode, 'gid': e.gid, 'dflt': list(getattr(e, 'dflt', ())), 'lexterms': getattr(e, 'lexterms', None), 'lexshape': getattr(e, 'lexshape', 'list'), 'clex': getattr(e, 'clex', False), 'ctxr': list(getattr(e, 'ctx', ())), 'postprec': list(getattr(e, 'postprec', ())), 'defines': list(getattr(e, 'defines', ())), 'noval': list(getattr(e, 'noval', ())), 'nvterms': list(getattr(e, 'nvterms', ())), 'tkinds': {str(k): v for k, v in getattr(e, 'tkinds', {}).items()}, 'alt_nts': list(getattr(e, 'alt_nts', ())), 'ctx': t.get('ctx', 0),
         'grammar': {'nts': e.g.nts, 'ts': e.g.ts, 'root': e.g.root, 'rules': e.g.rules, 'tprec': e.g.tprec, 'tassoc': e.g.tassoc},
         'bytes': t['bytes'], 'ws': t['ws'], 'nl': t['nl'], 'verbose': t['verbose'], 'stream': t['stream'], 'buf': t['buf']}
 
@@ -301,7 +361,7 @@ def judge_traces(out, entries, res, relevant, domain=None, per_grammar=2):
             continue
         for rj in res.rejects.get(e.gid, []):
             cls = classify_reject(rj)
-            if cls in relevant or cls.split(':')[0] in relevant:
+            if any(c in relevant or c.split(':')[0] in relevant for c in classify_reject_all(rj)):
                 per[e.g.name] += 1
                 if per[e.g.name] <= per_grammar:
                     out.violations.append(trace_violation(e, rj, cls))
@@ -484,7 +544,11 @@ def check_C02(tier, seed):
             # (a functor-less unit rule over a value-less nonterminal would need Node(no_type): not a valid user program)
             dfl = [] if g.has_error() else [i for i, (l, r, _) in enumerate(g.rules) if i not in ctx and g.nts.index(l) not in nv and rng.random() < 0.3
                                             and not (len(r) == 1 and r[0] in g.nts and g.nts.index(r[0]) in nv)]
-            e = pipeline.gen_entry(g, gid='%s@x%d' % (n, k), ctx=ctx, dflt=dfl, noval=nv, nvterms=[i for i in range(len(g.ts)) if rng.random() < 0.3],
+            # (non-root nonterminals of a second value type that is constructible from what the functors return; not where a
+            # functor-less rule would have to construct it from its parts)
+            alt = [i for i, x in enumerate(g.nts) if x != g.root and i not in nv and rng.random() < 0.5
+                   and not any(l == x and ri in dfl for ri, (l, _, _) in enumerate(g.rules))]
+            e = pipeline.gen_entry(g, gid='%s@x%d' % (n, k), ctx=ctx, dflt=dfl, noval=nv, alt_nts=alt, nvterms=[i for i in range(len(g.ts)) if rng.random() < 0.3],
                                    postprec=[i for i, (_, _, pr) in enumerate(g.rules) if pr and rng.random() < 0.5],
                                    defines=('VH_MOVE_MAY_THROW',) if rng.random() < 0.5 else ())
             ins = ws_inputs(g, 4 if len(g.ts) <= 3 else 3, [32, 10, ord('?')], 600 if tier == 'quick' else 3000)
@@ -578,7 +642,9 @@ def check_C09(tier, seed):
                 m = list(s); m[rng.randrange(len(m))] = rng.choice([ord(c) for c in e.g.ts] + [ord('?')])
                 pipeline.add_jobs(e, [m], tag='m', verbose=False)
                 pipeline.add_jobs(e, [s[:rng.randrange(len(s))]], tag='p', verbose=False)
-    entries += lex_entries + [emany]
+    estates = pipeline.gen_entry(many_states_grammar())
+    pipeline.add_jobs(estates, many_states_inputs(estates.g), verbose=False)
+    entries += lex_entries + [emany, estates]
     res, work = prun.run(entries, 'C09', design_L=L if tier == 'quick' else 5, design_ws=unknown[:2], do_product=True,
                          tlc_procs=4 if tier == 'quick' else 8, tlc_workers=4 if tier == 'quick' else 2)
     if res.design_errors:
@@ -626,6 +692,10 @@ def check_C10(tier, seed):
             pipeline.add_jobs(e, [lay], tag='lay', verbose=bool(rng.getrandbits(1)), ws=1, nl=rng.choice([0, 1, 1]))
     for e in entries[:3 if tier == 'quick' else 8]:
         byte_sweep(e, verbose=True)
+    # more lines than a 16-bit counter holds: positions of a term, and of a message, beyond line 65 536
+    e0 = [e for e in entries if e.g.name == 'left_rec'][0]
+    t0_ = ord(e0.g.ts[0])
+    pipeline.add_jobs(e0, [[10] * 65534 + [t0_], [10] * 65536 + [32, 32, t0_, 10, t0_], [10] * 70000 + [32, ord('?')]], verbose=False, tag='deep')
     # generated lexers whose automaton looks PAST the accepted lexeme before falling back (partial longer matches),
     # multi-character and multi-line lexemes: the position must advance by the lexeme, not by what was scanned
     import lx as lxl
@@ -692,8 +762,12 @@ def check_C08(tier, seed):
     # the line-oriented idiom: the newline is a term that ends the discarding (only meaningful with skip_newline(false))
     entries += entries_for(gram.Grammar('err_lines', ['S', 'T'], ['a', 'b', '\n'], 'S',
                                         [('S', ['S', 'T'], 0), ('S', ['T'], 0), ('T', ['a', '\n'], 0), ('T', ['a', 'b', '\n'], 0), ('T', ['error', '\n'], 0)]), hosts=())
+    ebig = pipeline.gen_entry(many_states_grammar(with_error=True))       # the error symbol shifted into a state numbered beyond 255
+    pipeline.add_jobs(ebig, many_states_inputs(ebig.g), verbose=True)
     for e in entries:
         ins = all_inputs(e.g, L if len(e.g.ts) <= 3 else L - 1, 800 if tier == 'quick' else 5000)
+        # (an unknown byte among the terms: 'Unexpected character' also while discarding)
+        ins += [x for x in ws_inputs(e.g, 4, [ord('?')], 3000) if ord('?') in x][::9][:120 if tier == 'quick' else 600]
         pipeline.add_jobs(e, ins, verbose=True)
         pipeline.add_jobs(e, ins[::5], verbose=False)
         # recovery under the other whitespace options: what is skipped while discarding is what the options say
@@ -701,7 +775,8 @@ def check_C08(tier, seed):
         oins = oins[::max(1, len(oins) // (150 if tier == 'quick' else 1200))]
         for (ws, nl) in ((1, 0), (0, 1), (0, 0)):
             pipeline.add_jobs(e, oins, verbose=True, ws=ws, nl=nl, tag='o%d%d_' % (ws, nl))
-    res, work = prun.run(entries, 'C08', design_L=4 if tier == 'quick' else 5, do_product=True,
+    entries.append(ebig)
+    res, work = prun.run(entries, 'C08', design_L=4 if tier == 'quick' else 5, do_product=True, design_only={e.gid for e in entries if e is not ebig},
                          tlc_procs=4 if tier == 'quick' else 8, tlc_workers=4 if tier == 'quick' else 2)
     if res.design_errors:
         raise Infra('the specification itself fails its invariants: ' + json.dumps(res.design_errors)[:3000])
@@ -1512,6 +1587,12 @@ def check_C04(tier, seed):
             if t[0] == 'R' and bytes(t[1]).decode('latin-1') in rep_inputs:
                 pipeline.add_jobs(e, rep_inputs[bytes(t[1]).decode('latin-1')], verbose=False, tag='rep')
         entries.append(e)
+    # no term matches while input is being DISCARDED after a syntax error: still reported, never skipped
+    cat_ = {g.name: g for g in catalogue()}
+    for n in ('err_suite', 'err_stmt'):
+        ee = pipeline.gen_entry(cat_[n], gid=n + '@c04')
+        pipeline.add_jobs(ee, [x for x in ws_inputs(ee.g, 4, [ord('?'), 32], 2500) if ord('?') in x][::3][:300 if tier == 'quick' else 2000], verbose=True)
+        entries.append(ee)
     res = None
     if entries:
         res, work2 = prun.run(entries, 'C04drv', design_L=None, do_product=False, tlc_procs=4 if tier == 'quick' else 8, tlc_workers=4 if tier == 'quick' else 2, keep_lex=True)
@@ -1676,10 +1757,10 @@ def check_C06(tier, seed):
     if rl.exit != 0 or rl.errors:
         raise Infra('the specification does not terminate / violates Safe (spec bug): %s\n%s' % (rl.errors[:3], rl.out[-2000:]))
     # ---- the standalone matcher: any string, matching or not, through the checked buffer
-    pats = ['a*', '(a|b)*c', '[a-z]+[0-9]*', 'a{3}', '.', '[^a]', '\\x80+', 'ab?c', 'x', '(ab)+']
+    pats = ['a*', '(a|b)*c', '[a-z]+[0-9]*', 'a{3}', '.', '[^a]', '\\x80+', 'ab?c', 'x', '(ab)+', '(ab){2}', '(a|bc){3}x', '((ab){2}c){2}']
     pjobs = []
     for i, ptxt in enumerate(pats):
-        strs = [[], [97], [97] * 2000, [0], [0x80, 0xff], [98, 99], [97, 98, 97, 98], [120], [99]]
+        strs = [[], [97], [97] * 2000, [0], [0x80, 0xff], [98, 99], [97, 98, 97, 98], [120], [99], [97, 98, 97, 98, 97, 98], [97, 98, 99, 97, 120], [97, 98, 97, 98, 99, 97, 98, 97, 98, 99]]
         for _ in range(10 if tier == 'quick' else 100):
             strs.append([rng.choice([97, 98, 99, 120, 48, 0, 0x80, 32]) for _ in range(rng.randint(0, 12))])
         pjobs.append(('m%d' % i, list(ptxt.encode('latin-1').decode('unicode_escape').encode('latin-1')) if False else list(ptxt.encode('latin-1')), strs))
@@ -1733,7 +1814,8 @@ def run_rxexpr(rng, tier):
     binp = vlib.build_binary('rxexpr', 'rxexpr.cpp')
     work = vlib.scratch('rxexpr')
     jp = os.path.join(work, 'jobs')
-    strs = [[], [97], [98], [97, 97, 97], [97] * 500, [0], [0x80], [120, 121], [97, 98, 99], [48, 49], [97, 0, 97]]
+    strs = [[], [97], [98], [97, 97, 97], [97] * 500, [0], [0x80], [120, 121], [97, 98, 99], [48, 49], [97, 0, 97],
+            [97, 98, 97, 98], [97, 98, 97], [97, 98, 97, 98, 97, 98], [97, 98, 99, 97, 120], [97, 97, 97, 120], [98, 99, 98, 99, 98, 99, 120]]
     for _ in range(20 if tier == 'quick' else 200):
         strs.append([rng.choice([97, 98, 99, 120, 48, 0, 0x80, 32, 10]) for _ in range(rng.randint(0, 10))])
     with open(jp, 'w') as f:
@@ -1778,6 +1860,11 @@ def check_C07(tier, seed):
                     sp += [b] + ([rng.choice([32, 10, 9])] if rng.random() < 0.4 else [])
                 ins.append((sp, 1, rng.choice([0, 1])))
                 ins.append((sp, 0, 1))
+                # empty lines between the terms (two line breaks in one run of whitespace), also with carriage returns
+                dl = []
+                for k_, b in enumerate(s):
+                    dl += [b] + ([10, 10] if k_ % 2 == 0 else [13, 10, 13, 10, 32])
+                ins.append((dl, 1, 1))
         seen, uniq = set(), []
         for (b, ws, nl) in ins:
             k = (tuple(b), ws, nl)
@@ -2609,7 +2696,7 @@ def replay(pid, path):
         elif v.get('lexterms'):
             e = pipeline.lex_entry(v['gname'], [tuple(t) for t in v['lexterms']], v.get('lexshape', 'list'))
         elif v['mode'] == 'gen':
-            e = pipeline.gen_entry(g, dflt=v.get('dflt', ()), ctx=v.get('ctxr', ()), postprec=v.get('postprec', ()), defines=v.get('defines', ()), noval=v.get('noval', ()), nvterms=v.get('nvterms', ()), tkinds={int(k): x for k, x in (v.get('tkinds') or {}).items()})
+            e = pipeline.gen_entry(g, dflt=v.get('dflt', ()), ctx=v.get('ctxr', ()), postprec=v.get('postprec', ()), defines=v.get('defines', ()), noval=v.get('noval', ()), nvterms=v.get('nvterms', ()), tkinds={int(k): x for k, x in (v.get('tkinds') or {}).items()}, alt_nts=v.get('alt_nts', ()))
         else:
             e = pipeline.host_entry(g, int(v['mode'][4:]))
         e.jobs = [('%s:replay' % e.gid, int(v.get('buf', 0)), int(v.get('stream', 0)), int(v.get('verbose', 1)), int(v['ws']), int(v['nl']), list(v['bytes']), int(v.get('ctx', 0)))]
